@@ -485,7 +485,8 @@ def _calibrator(tfl, keras, f, out_min, out_max, name, units=1):
       kwargs["missing_output_value"] = _r(
           lo + f["missing_output_frac"] * (hi - lo), 3)
   return tfl.layers.PWLCalibration(
-      input_keypoints=list(f["keypoints"]),
+      input_keypoints=(np.asarray(f["keypoints"], dtype=np.float64)
+                       if f.get("keypoints_numpy") else list(f["keypoints"])),
       units=units,
       output_min=out_min,
       output_max=out_max,
@@ -839,8 +840,14 @@ def _reg_arg(s, names, dims=None, p=0.5):
   name = s.choice(names)
   l1 = _r(s.log10_uniform(-4, -1), 5)
   l2 = _r(s.log10_uniform(-4, -1), 5)
-  if dims and s.chance(0.4):
-    l1 = [_r(l1 * (i + 1), 5) for i in range(dims)]
+  if dims and s.chance(0.5):
+    # Per-dimension amounts; sometimes all equal (a list still means
+    # something else than a scalar for the torsion regularizer).
+    if s.chance(0.4):
+      l1 = [l1] * dims
+      l2 = [l2] * dims
+    else:
+      l1 = [_r(l1 * (i + 1), 5) for i in range(dims)]
   style = s.choice(["tuple", "list1", "list2"])
   if style == "tuple":
     return {"style": "tuple", "items": [[name, l1, l2]]}
@@ -878,6 +885,7 @@ class LayerBuilder(object):
         # (is_cyclic needs at least three keypoints.)
         a["input_keypoints"] = gen_keypoints(s, 3)
       a["units"] = s.weighted([(1, 3), (2, 2), (3, 1)])
+      a["keypoints_numpy"] = s.sub("kp-numpy").chance(0.4)
       # Theme first, so that rarely compatible options (cyclic needs neither
       # monotonicity nor convexity) are exercised often enough.
       theme = s.weighted([("any", 4), ("cyclic", 2)])
@@ -1144,7 +1152,9 @@ class LayerBuilder(object):
     if kind == "pwl":
       ins = _plain_inputs(keras, tf, 1)
       layer = tfl.layers.PWLCalibration(
-          input_keypoints=list(a["input_keypoints"]), units=a["units"],
+          input_keypoints=(np.asarray(a["input_keypoints"], dtype=np.float64)
+                           if a.get("keypoints_numpy") else
+                           list(a["input_keypoints"])), units=a["units"],
           output_min=a["output_min"], output_max=a["output_max"],
           clamp_min=a["clamp_min"], clamp_max=a["clamp_max"],
           monotonicity=a["monotonicity"], convexity=a["convexity"],
